@@ -70,6 +70,9 @@ def run(chk, replay=None):
             if chk.tier == 'quick':
                 small = rng.sample(small, 500)
             cases += [(w, 'small', None) for w in small]
+            dia = list(W.diamond_worlds())
+            cases += [(w, 'diamond', None) for w in dia]
+            stats['diamonds'] = len(dia)
             stats['exhaustive_small'] = len(small)
             n = 250 if chk.tier == 'quick' else 3000
             for _ in range(n):
@@ -167,7 +170,7 @@ def run(chk, replay=None):
             corr.append(('reasons of the failures: implementation %s, model %s' % (why, t[2:]), rec)); continue
     chk.cov.update(evaluations=stats['worlds'] + stats['repairs'], distinct_nontrivial=stats['worlds'],
                    rule='every world of 2 files x 2 units, 2 files x 2 components, 3 files x 1 units, 3 files x 1 component (each entity a leaf, a reference to another entity of its file, or an import of any entity of any file: self-imports and cycles of every length included; a sample at the quick tier); '
-                        'random worlds of 2-5 files (units with child references, nested components using units, imports mostly downwards, some back-edges) and one fault each (file missing, truncated at three lengths, foreign XML, referenced entity removed), then repaired and resolved again with the same importer',
+                        'every depth-three world in which an imported component (or units) of a second file uses two units that are leaves or imports from a third file whose units are leaves, imports from a fourth file or refer to each other; random worlds of 2-5 files (units with child references, nested components using units, imports mostly downwards, some back-edges) and one fault each (file missing, truncated at three lengths, foreign XML, referenced entity removed), then repaired and resolved again with the same importer',
                    samples=[lines[0][:300] if lines else '', model[0][:100] if model else ''], traces_validated_against_impl=len(lines) - len(corr), exhaustive=(chk.tier == 'thorough'), outcome_histogram=stats)
     for what, rec in oracle[:3]:
         chk.violation('import resolution is not decided correctly: ' + what, {'kind': 'oracle', 'engine': 'world', 'world': rec['world'], 'repaired': rec['repaired'], 'wire': W.wire(rec['world'], ORIGIN), 'why': what}, True)
